@@ -21,6 +21,15 @@ Theorem C07_certified_inference_sound :
 Proof. intros T p H orc args. exact (wf_sound T orc p args H). Qed.
 Print Assumptions C07_certified_inference_sound.
 
+(* the same statement for the MODEL of infer_state_of: whenever the model's own table passes the
+   certificate (decidable; evaluated on every real accfg-trace-states output by the harness),
+   nothing the model infers is ever contradicted.  [ainfer_certified] is the Safe predicate. *)
+Theorem C07_model_inference_sound_partial :
+  forall (p : prog), ainfer_certified p = true ->
+  forall (orc : oracle) (args : list Z), chk_prog (tfun (ainfer p)) orc p args = [].
+Proof. intros p H orc args. exact (wf_sound (tfun (ainfer p)) orc p args H). Qed.
+Print Assumptions C07_model_inference_sound_partial.
+
 (* the woven two-configuration loop of notes/probe_c01_two_config_loop.mlir (F1) *)
 Definition c07_two_cfg : prog :=
   mkProg [0%nat; 1%nat; 2%nat; 3%nat; 4%nat; 5%nat]
